@@ -1,5 +1,5 @@
 (* C16 — Date-time codec round-trips and keeps the DLMS sign convention for UTC deviation. *)
-From Dlms Require Import Base FieldsModel TimeModel TimeProofs.
+From Dlms Require Import Base FieldsModel TimeModel TimeSpec TimeProofs.
 
 (* the 12-byte layout: year, month, day, unspecified weekday (0xFF), hour, minute, second,
    hundredths, deviation = minus the UTC offset in minutes (0x8000 for a naive value), status *)
